@@ -1,6 +1,7 @@
 import Acra.Lemmas.Ch11UART
 import Acra.Props.C08.MIL1553
 import Acra.Lemmas.ReviewC08Records
+import Acra.Lemmas.RecordsErr
 namespace Acra.Props.C08
 open Acra.Py Acra.Model.Ch11Pay Acra.Model.Ch11Pay.UART Acra.Gen.Ch11UART Acra.Lemmas.Ch11UART
 
@@ -172,5 +173,183 @@ theorem UARTWord_unpack_outcomes (t : Word) (buf : Bytes) :
     | (simp; done)
     | (rename_i e h; rw [h] at this; simpa using this)
     | (rename_i e h; have := structUnpackFrom_error _ _ _ _ h; subst this; simp)
+
+/-! ### packet-level outcome list (review B4): `UARTDataPacket.unpack` returns, or raises `struct.error` or
+    `AttributeError`; each kind characterised -/
+
+/-- the time-stamp step fails only with `struct.error`, and exactly when a time stamp is expected and fewer than
+    8 bytes are there (`AttributeError` is guarded away by `if self.ipts is not None`) -/
+theorem unpackTs_error_iff (i : Ipts) (buf : Bytes) (e : Err) :
+    unpackTs i buf = .error e ↔ e = .struct ∧ i ≠ .none ∧ buf.length < 8 := by
+  cases i with
+  | none => simp [unpackTs]
+  | rtc c =>
+    by_cases h8 : 8 ≤ buf.length
+    · have : (buf.take 8).length = 8 := by simp; omega
+      simp only [unpackTs, reduceCtorEq, if_false, Ipts.unpack, structUnpack, this, Acra.Gen.Ch11PayTs.RTC_unpack_fmt0,
+        Fmt.size, codesSize, Code.size, unpackCodes, if_true, false_iff]
+      omega
+    · have : ¬ (buf.take 8).length = 8 := by simp; omega
+      simp only [unpackTs, reduceCtorEq, if_false, Ipts.unpack, structUnpack, this, Acra.Gen.Ch11PayTs.RTC_unpack_fmt0,
+        Fmt.size, codesSize, Code.size, Except.error.injEq, ne_eq, not_false_eq_true, true_and]
+      constructor
+      · rintro rfl; exact ⟨rfl, by omega⟩
+      · rintro ⟨rfl, _⟩; rfl
+  | ptp a b =>
+    by_cases h8 : 8 ≤ buf.length
+    · have : (buf.take 8).length = 8 := by simp; omega
+      simp only [unpackTs, reduceCtorEq, if_false, Ipts.unpack, structUnpack, this, Acra.Gen.Ch11PayTs.PTP_unpack_fmt0,
+        Fmt.size, codesSize, Code.size, unpackCodes, if_true, false_iff]
+      omega
+    · have : ¬ (buf.take 8).length = 8 := by simp; omega
+      simp only [unpackTs, reduceCtorEq, if_false, Ipts.unpack, structUnpack, this, Acra.Gen.Ch11PayTs.PTP_unpack_fmt0,
+        Fmt.size, codesSize, Code.size, Except.error.injEq, ne_eq, not_false_eq_true, true_and]
+      constructor
+      · rintro rfl; exact ⟨rfl, by omega⟩
+      · rintro ⟨rfl, _⟩; rfl
+
+/-- `UARTDataWord.unpack` fails only with `struct.error`, and exactly when the (optional) 8-byte time stamp and the
+    4-byte word header are not all there -/
+theorem UARTWord_unpack_error_iff (t : Word) (buf : Bytes) (e : Err) :
+    (Word.unpack t buf).2 = .error e ↔ e = .struct ∧ buf.length < (if t.ipts = .none then 4 else 12) := by
+  simp only [Word.unpack]
+  cases hts : unpackTs t.ipts buf with
+  | error e' =>
+    obtain ⟨rfl, hn, hl⟩ := (unpackTs_error_iff _ _ _).1 hts
+    simp only [hn, if_false, Except.error.injEq]
+    constructor
+    · rintro rfl; exact ⟨rfl, by omega⟩
+    · rintro ⟨rfl, _⟩; rfl
+  | ok r =>
+    obtain ⟨i, off⟩ := r
+    have hoff : off = (if t.ipts = .none then 0 else 8) ∧ (t.ipts ≠ .none → 8 ≤ buf.length) := by
+      by_cases hn : t.ipts = .none
+      · simp only [unpackTs, hn, if_true, Except.ok.injEq, Prod.mk.injEq] at hts
+        exact ⟨by simp [hn, hts.2.symm], fun h => absurd hn h⟩
+      · have hoff := unpackTs_off _ _ _ _ hts
+        have : ¬ buf.length < 8 := by
+          intro hl
+          have := (unpackTs_error_iff t.ipts buf .struct).2 ⟨rfl, hn, hl⟩
+          rw [hts] at this; cases this
+        refine ⟨?_, fun _ => by omega⟩
+        simp only [hn, if_false]
+        rcases hoff with h0 | h8
+        · simp only [unpackTs, hn, if_false] at hts
+          split at hts
+          · simp only [Except.ok.injEq, Prod.mk.injEq] at hts; omega
+          · cases hts
+        · exact h8
+    simp only
+    by_cases hl : off + 4 ≤ buf.length
+    · have : structUnpackFrom UW_unpack_fmt0 buf off =
+          .ok [decInt false ((buf.drop off).take 2), decInt false (((buf.drop off).drop 2).take 2)] := by
+        simp only [structUnpackFrom, UW_unpack_fmt0, Fmt.size, codesSize, Code.size, unpackCodes]
+        have : off + (2 + (2 + 0)) ≤ buf.length := by omega
+        simp only [this, if_true]
+      simp only [this, reduceCtorEq, false_iff, not_and]
+      intro _
+      by_cases hn : t.ipts = .none
+      · simp only [hn, if_true] at hoff ⊢; omega
+      · have := hoff.2 hn
+        simp only [hn, if_false] at hoff ⊢; omega
+    · have : structUnpackFrom UW_unpack_fmt0 buf off = .error .struct := by
+        simp only [structUnpackFrom, UW_unpack_fmt0, Fmt.size, codesSize, Code.size]
+        have : ¬ off + (2 + (2 + 0)) ≤ buf.length := by omega
+        simp only [this, if_false]
+      simp only [this, Except.error.injEq]
+      constructor
+      · rintro rfl
+        refine ⟨rfl, ?_⟩
+        by_cases hn : t.ipts = .none
+        · simp only [hn, if_true] at hoff ⊢; omega
+        · simp only [hn, if_false] at hoff ⊢; omega
+      · rintro ⟨rfl, _⟩; rfl
+
+/-- the channel-specific word is complete, so the loop is entered or the prototype is missing -/
+theorem UART_unpack_error_iff (t : Packet) (buf : Bytes) (e : Err) :
+    (Packet.unpack t buf).2 = .error e ↔
+      (buf.length < 4 ∧ e = .struct) ∨
+      (4 ≤ buf.length ∧ t.proto = Option.none ∧ e = .attribute) ∨
+      (4 ≤ buf.length ∧ ∃ proto, t.proto = some proto ∧ e = .struct ∧ ∃ ws o,
+        Acra.Lemmas.RecordsErr.Reach (decWord proto) moreUART buf 4 ws o ∧ moreUART o buf.length = true ∧
+        buf.length - o < (if proto.ipts = .none then 4 else 12)) := by
+  simp only [Packet.unpack]
+  by_cases h4 : 4 ≤ buf.length
+  · have hc : ∃ v, structUnpackFrom UP_unpack_fmt0 buf 0 = .ok v := by
+      simp only [structUnpackFrom, UP_unpack_fmt0, Fmt.size, codesSize, Code.size]
+      have : 0 + (4 + 0) ≤ buf.length := by omega
+      simp only [this, if_true]
+      exact ⟨_, rfl⟩
+    obtain ⟨v, hc⟩ := hc
+    simp only [hc]
+    cases hp : t.proto with
+    | none =>
+      simp only [Except.error.injEq]
+      constructor
+      · rintro rfl; exact Or.inr (Or.inl ⟨h4, trivial, rfl⟩)
+      · rintro (⟨h, _⟩ | ⟨_, _, h⟩ | ⟨_, proto, h, _⟩)
+        · omega
+        · exact h.symm
+        · cases h
+    | some proto =>
+      have key := Acra.Lemmas.RecordsErr.decOff_error_iff (decWord proto) moreUART buf (decWord_progress proto)
+        (buf.length + 1) 4 (by omega) e
+      have hstep : ∀ o e', decWord proto (buf.drop o) = .error e' ↔
+          e' = .struct ∧ buf.length - o < (if proto.ipts = .none then 4 else 12) := by
+        intro o e'
+        rw [← List.length_drop, ← UARTWord_unpack_error_iff proto (buf.drop o) e']
+        simp only [decWord]
+        cases Word.unpack proto (buf.drop o) with
+        | mk b r => cases r <;> simp
+      simp only [reduceCtorEq, false_and, false_or, Option.some.injEq, exists_eq_left', h4, true_and]
+      cases hd : decOff (decWord proto) moreUART buf (buf.length + 1) 4 with
+      | ok ws =>
+        simp only [reduceCtorEq, false_iff]
+        rintro (⟨h, _⟩ | ⟨rfl, ws', o, hr, hm, hl⟩)
+        · omega
+        · have := key.2 ⟨ws', o, hr, hm, (hstep o _).2 ⟨rfl, hl⟩⟩
+          rw [hd] at this; cases this
+      | error e' =>
+        simp only [Except.error.injEq]
+        constructor
+        · rintro rfl
+          obtain ⟨ws, o, hr, hm, he⟩ := key.1 hd
+          obtain ⟨rfl, hl⟩ := (hstep o _).1 he
+          exact Or.inr ⟨rfl, ws, o, hr, hm, hl⟩
+        · rintro (⟨h, _⟩ | ⟨rfl, ws, o, hr, hm, hl⟩)
+          · omega
+          · have := key.2 ⟨ws, o, hr, hm, (hstep o _).2 ⟨rfl, hl⟩⟩
+            rw [hd] at this
+            cases this; rfl
+  · have hc : structUnpackFrom UP_unpack_fmt0 buf 0 = .error .struct := by
+      simp only [structUnpackFrom, UP_unpack_fmt0, Fmt.size, codesSize, Code.size]
+      have : ¬ 0 + (4 + 0) ≤ buf.length := by omega
+      simp only [this, if_false]
+    simp only [hc, Except.error.injEq, h4, false_and, or_false]
+    constructor
+    · rintro rfl; exact ⟨by omega, rfl⟩
+    · rintro ⟨_, rfl⟩; rfl
+
+/-- the outcome list: a value, `struct.error`, or `AttributeError` (only for an `ipts_source` that is neither
+    `TS_CH4` nor `TS_IEEE1558`) — nothing else -/
+theorem UART_unpack_outcomes (t : Packet) (buf : Bytes) :
+    (Packet.unpack t buf).2 = .ok () ∨ (Packet.unpack t buf).2 = .error .struct ∨
+    ((Packet.unpack t buf).2 = .error .attribute ∧ t.proto = Option.none) := by
+  cases hr : (Packet.unpack t buf).2 with
+  | ok u => exact Or.inl rfl
+  | error e =>
+    rcases (UART_unpack_error_iff t buf e).1 hr with ⟨_, rfl⟩ | ⟨_, hp, rfl⟩ | ⟨_, _, _, rfl, _⟩
+    · exact Or.inr (Or.inl rfl)
+    · exact Or.inr (Or.inr ⟨rfl, hp⟩)
+    · exact Or.inr (Or.inl rfl)
+
+/-- every outcome is reachable: `wUART` accepted; 3 bytes → `struct.error` (channel-specific word); the second word's
+    header cut (5 bytes too few… the loop condition `abs(offset − len) > 4` still holds) → `struct.error`;
+    `ipts_source = 7` → `AttributeError` -/
+example : (Packet.unpack (Packet.fresh (some 1) 1) wUART).2 = .ok () := by rfl
+example : (Packet.unpack (Packet.fresh (some 1) 1) (wUART.take 3)).2 = .error .struct := by rfl
+example : (Packet.unpack (Packet.fresh (some 1) 1) (wUART.take 29)).2 = .error .struct := by rfl
+example : (Packet.unpack (Packet.fresh (some 7) 1) wUART).2 = .error .attribute ∧
+    (Packet.fresh (some 7) 1).proto = Option.none := ⟨by rfl, by rfl⟩
 
 end Acra.Props.C08
